@@ -184,10 +184,11 @@ pub fn split_a2ml(cx: &mut Cx, items: &mut [Item], dir: &str, st: &mut SplitStat
                         cx.probe("a2ml-include-name-with-special-characters");
                         format!("{}{}.aml", cx.tape.pick_str(&["xcp-defs", "a2ml part ", "v1.0+", "n\u{e4}chste_"]), st.counter)
                     } else {
-                        format!("{}{}.aml", cx.tape.pick_str(&["a2ml_part", "tables", "new_", "r"]), st.counter)
+                        // (a name or directory that begins with "end" puts the characters "/end" into the A2ML text)
+                        format!("{}{}.aml", cx.tape.pick_str(&["a2ml_part", "tables", "new_", "r", "endpoints", "end"]), st.counter)
                     };
                     let sub = cx.tape.chance(1, 2);
-                    let subdir = if special { cx.tape.pick_str(&["aml", "new-aml", "t aml"]) } else { cx.tape.pick_str(&["aml", "new", "tables", "r"]) };
+                    let subdir = if special { cx.tape.pick_str(&["aml", "new-aml", "t aml", "end of line"]) } else { cx.tape.pick_str(&["aml", "new", "tables", "r", "end", "endian"]) };
                     let (path, rel) = if sub { (format!("{dir}/{subdir}/{fname}"), format!("{subdir}/{fname}")) } else { (format!("{dir}/{fname}"), fname.clone()) };
                     let backslash = sub && cx.tape.chance(1, 3);
                     let name = if backslash { rel.replace('/', "\\") } else { rel };
@@ -507,6 +508,26 @@ impl Scenario for C16Includes {
                 }
                 if sut::diag_classes(&d) != sut::diag_classes(&rd) {
                     return Err(cx.fail("T1", "diagnostics-differ", format!("{:?} vs {:?}", sut::diag_classes(&d), sut::diag_classes(&rd))));
+                }
+                // T1 for the string entry point: the text of the main file handed to load_from_string while the
+                // process stands in the main file's directory resolves the same directives to the same files
+                if cx.tape.chance(1, 3) {
+                    fs.set_cwd("/work");
+                    fs.begin_op(BTreeMap::new(), false);
+                    let total = total_bytes(&fs);
+                    let from_string = sut::load_str(cx, "T1", &root.text, None, strict);
+                    fs.set_cwd("/cwd");
+                    match from_string? {
+                        Ok((ms, _)) => {
+                            let mms = merged(cx, &ms)?;
+                            if !guarded(cx, "no-panic", "model comparison", || mms == mm)? {
+                                return Err(cx.fail("T1", "string-entry-differs", format!("load_from_string(text of main) in the main file's directory differs from load(main): {}", crate::c01::model_diff(&mm, &mms))));
+                            }
+                        }
+                        Err(e) => return Err(cx.fail("T1", "string-entry-include-load-failed", format!("load(main) succeeds, load_from_string(text of main) in the same directory fails: {e}"))),
+                    }
+                    let _ = total;
+                    cx.probe("main-text-through-load_from_string");
                 }
                 (m, d)
             }
